@@ -254,8 +254,7 @@ def cbmc_flags(g):
         f += ["--unwindset", ",".join(f"{k}:{v}" for k, v in g.unwindset.items())]
         if g.unwind is None and not g.no_unwinding_assertions:
             f += ["--unwinding-assertions"]
-    if g.object_bits:
-        f += ["--object-bits", str(g.object_bits)]
+    f += ["--object-bits", str(g.object_bits or 12)]
     return f + [x for x in g.flags if x != "apply_loop_contracts"]
 
 
